@@ -229,4 +229,51 @@ Proof.
   intros Ho Hn. destruct o; try discriminate Ho; cbn [op_handle_of] in Ho; inversion Ho; subst;
     cbn [cow_step op_handle_of]; rewrite Hn; destruct (bstep sb _); reflexivity.
 Qed.
+(* the three Stat cases in one statement *)
+Theorem cow_stat_rule sb sl tbl p sl1 :
+  (forall fi, lstep sl (Stat p) = (sl1, RInfo fi) ->
+     cow (sb, sl, tbl) (Stat p) = ((sb, sl1, tbl), RInfo fi)) /\
+  (forall e, lstep sl (Stat p) = (sl1, RErr e) -> cow_is_not_exist e = true ->
+     cow (sb, sl, tbl) (Stat p) = ((fst (bstep sb (Stat p)), sl1, tbl), snd (bstep sb (Stat p)))) /\
+  (forall e, lstep sl (Stat p) = (sl1, RErr e) -> cow_is_not_exist e = false ->
+     cow (sb, sl, tbl) (Stat p) = ((sb, sl1, tbl), RErr e)).
+Proof.
+  split; [|split].
+  - intros fi H. now apply cow_stat_overlay.
+  - intros e H Hn. now apply (cow_stat_base sb sl tbl p sl1 e).
+  - intros e H Hn. now apply cow_stat_overlay_error.
+Qed.
+
+(* a union (directory) handle: the call is the UnionFile method, the updated UnionFile is stored back *)
+Theorem cow_union_handle sb sl tbl o i u :
+  op_handle_of o = Some i -> nth_error tbl i = Some (HU u) ->
+  cow (sb, sl, tbl) o =
+    let '(sb1, sl1, u1, r) := uf_op bstep lstep sb sl u o in ((sb1, sl1, list_set i (HU u1) tbl), r).
+Proof.
+  intros Ho Hn. destruct o; try discriminate Ho; cbn [op_handle_of] in Ho; inversion Ho; subst;
+    cbn [cow_step op_handle_of]; rewrite Hn; reflexivity.
+Qed.
 End View.
+
+(* the refusals with views, in one statement *)
+Theorem cow_refusals_view :
+  forall (B L VB VL : Type) (bstep : B -> op -> B * res) (lstep : L -> op -> L * res) (vb : B -> VB) (vl : L -> VL),
+  (forall s p, vb (fst (bstep s (Stat p))) = vb s) ->
+  (forall s p, vl (fst (lstep s (Stat p))) = vl s) ->
+  (forall s o, res_is_err (snd (lstep s o)) = true -> vl (fst (lstep s o)) = vl s) ->
+  forall sb sl tbl,
+  (forall p q fi, is_info (snd (lstep sl (Stat p))) = false -> snd (bstep sb (Stat p)) = RInfo fi ->
+     snd (cow_step bstep lstep (sb, sl, tbl) (Rename p q)) = RErr (E KEPERM) /\
+     same_view vb vl (sb, sl, tbl) (fst (cow_step bstep lstep (sb, sl, tbl) (Rename p q)))) /\
+  (forall o p er, o = Remove p \/ o = RemoveAll p -> snd (lstep sl o) = RErr er ->
+     res_is_err (snd (cow_step bstep lstep (sb, sl, tbl) o)) = true /\
+     same_view vb vl (sb, sl, tbl) (fst (cow_step bstep lstep (sb, sl, tbl) o))) /\
+  (forall p perm fi, snd (bstep sb (Stat p)) = RInfo fi -> fi_dir fi = true ->
+     snd (cow_step bstep lstep (sb, sl, tbl) (Mkdir p perm)) = RErr (E KExist) /\
+     same_view vb vl (sb, sl, tbl) (fst (cow_step bstep lstep (sb, sl, tbl) (Mkdir p perm)))).
+Proof.
+  intros B L VB VL bstep lstep vb vl Hb Hl Hf sb sl tbl. split; [|split].
+  - intros p q fi. now apply cow_rename_base_only_view.
+  - intros o p er. now apply cow_remove_failed_view.
+  - intros p perm fi. now apply cow_mkdir_base_dir_view.
+Qed.
